@@ -131,6 +131,14 @@ def families(n):
     for i in range(1, max(2, n // 4)):      # right-nested xor chain whose left operands are conjunctions that survive optimisation
         t = gen.mk("xor", gen.mk("and", ge_p(10 * i), ne_p(10 * i + 5)), t)
     out["right-nested xor over surviving and"] = t
+    k2 = min(max(6, n // 6), 22)            # an implication ~v0 | v1 | ... | vk over many DISTINCT variables (and its conjunctive dual)
+    t = gen.mk("not", names[0])
+    t2 = names[0]
+    for i in range(1, k2):
+        t = gen.mk("or", t, names[i])
+        t2 = gen.mk("and", t2, gen.mk("not", names[i]) if i % 2 else names[i])
+    out["wide implication over distinct variables"] = t
+    out["wide conjunction of literals"] = t2
     t = names[0]
     for i in range(1, max(2, n // 4)):      # the mirrored spine
         t = gen.mk("xor", t, gen.mk("and", names[i], ne_p(i)))
@@ -140,6 +148,27 @@ def families(n):
         t = gen.mk("or" if i % 2 else "and", t, in_p(i, i + 1) if i % 3 else not_in_p(i))
     out["in/not_in chain"] = t
     return out
+
+
+class SlowOptimize(BaseException):
+    pass
+
+
+def run_limited(fn, t, seconds=25):
+    """fn(t) under a wall-clock limit; a first expiry is retried once with twice the time (a loaded machine must not produce an alarm)"""
+    def on_alarm(*_a):
+        raise SlowOptimize(seconds)
+    for attempt, lim in enumerate((seconds, 2 * seconds)):
+        old = signal.signal(signal.SIGALRM, on_alarm)
+        signal.setitimer(signal.ITIMER_REAL, lim)
+        try:
+            return fn(t)
+        except SlowOptimize:
+            if attempt == 1:
+                raise SlowOptimize(lim) from None
+        finally:
+            signal.setitimer(signal.ITIMER_REAL, 0)
+            signal.signal(signal.SIGALRM, old)
 
 
 def count_search(payload, fails):
@@ -152,8 +181,10 @@ def count_search(payload, fails):
             over = False
             with Counter(limit=4 * sz * sz + 400) as c:      # stop counting at twice the envelope: an exponential blow-up never returns
                 try:
-                    optimize(t)
+                    run_limited(optimize, t)
                     err = None
+                except SlowOptimize as e:
+                    err = f"did not return within {e.args[0]} s (twice; the unchanged tree needs well under a second for this size)"
                 except BudgetExceeded:
                     err, over = None, True
                 except RecursionError:
@@ -239,6 +270,10 @@ PROBES = [None, True, 0, 1, 2, 3, 2.5, "a", [], [1, 2], {1}, {1, 2, 3}, set()]
 def mutation_search(payload, fails):
     rng = rng_of(payload)
     trees = term_space(payload, 120 if payload["tier"] == "quick" and not payload.get("deep") else 500)
+    blocked = not_in_p(*range(40))
+    trees += [ge_p(0) & in_p(*range(100, 120)), gen.mk("not", not_in_p(*range(100, 125))), is_subset_p(set(range(20))) | is_subset_p(set(range(10, 40))),
+              blocked & not_in_p(1000, 1001), gen.mk("xor", gen.mk("and", blocked, not_in_p(1000, 1001)), blocked), in_p(*range(50)) | in_p(*range(40, 90)),
+              in_p(*range(33)) & not_in_p(*range(20, 60)), in_p(*range(64)) ^ in_p(*range(32, 96))]
     trees += [in_p(1, 2) & in_p(2, 3), not_in_p(1) & not_in_p(2), in_p(1, 2) | in_p(3), in_p(1, 2) ^ in_p(2, 3),
               is_subset_p({1, 2}) & is_subset_p({2, 3}), in_p(1, 2) | eq_p(3), eq_p(1) | not_in_p(1, 2), in_p(1, 2) & not_in_p(2)]
     n = 0
